@@ -74,6 +74,11 @@ def run(prog, rep):
     from .c01 import equivalence_discharge
     rep.attempt(PR.tdftype_primitives, prog, rep)
     equivalence_discharge(prog, cd, rep)
+    # a decoded block reports the size of its bytes only if every stored attribute (incl. the format code the container
+    # writes back) decodes to itself
+    from .c01 import attr_linkage
+    for u in cd.units.values():
+        rep.attempt(attr_linkage, rep, cd, u, rule="decoded-object-linkage")
     # a decoded block re-derives its runs (and so its size) from NaN: gap frames must decode as NaN
     from .c05 import nan_prefill
     rep.attempt(nan_prefill, prog, cd, rep)
